@@ -212,7 +212,10 @@ Section Spec.
                               | None => true
                               end) (preload q) &&
             (* renew: a renewal job for the name is queued or running *)
-            forallb (fun c => renew_job_for a (chead c)) (prenew q)
+            forallb (fun c => renew_job_for a (chead c)) (prenew q) &&
+            (* and nothing else is submitted: only for certificates the scan found due *)
+            forallb (fun x => (count x (o_jobs a) <=? count x (o_jobs b)) ||
+                              existsb (fun c => chead c =? code_name x) (prenew q)) (o_jobs a)
         end
     | ExtRenew n rest =>
         same_cache a b && same_jobs a b && same_counts a b && negb (o_err a) &&
